@@ -31,6 +31,13 @@ func init() {
 		return tuple{uint64(len(b)), iface{}}
 	}
 
+	// code-signature markers of crypto/internal/boring (bodiless assembly stubs without effect)
+	for _, k := range []string{"crypto/internal/boring/sig.StandardCrypto", "crypto/internal/boring/sig.BoringCrypto", "crypto/internal/boring/sig.FIPSOnly"} {
+		externals[k] = func(fr *frame, args []value) value { return nil }
+	}
+	// FIPS 140 service indicator (per-goroutine runtime state, never read by the code under test)
+	externals["crypto/internal/fips140.setIndicator"] = func(fr *frame, args []value) value { return nil }
+	externals["crypto/internal/fips140.getIndicator"] = func(fr *frame, args []value) value { return uint64(0) }
 	// fmt.Sprintf / fmt.Fprintf with a concrete format and concrete operands of plain basic types are computed by
 	// the host's fmt (xsrftoken builds and parses its tokens this way); anything else keeps the opaque / no-op
 	// behaviour of extern.go.
